@@ -29,9 +29,9 @@ def _opt_default(t):
 
 @rule('VC-ACCESS', {
     'C10': 'missing actors count as 0; merge/lub and from_iter go through into_iter/apply; dot(actor) pairs the actor with its own counter',
-    'C20': 'every "drop the element when its witness clock is empty" decision calls VClock::is_empty',
+    'C20': 'every "drop the element when its witness clock is empty" decision calls VClock::is_empty; clocks built by from_iter / From<Dot> must be the canonical ones apply builds (no zero entries), or equal knowledge stops meaning equal clocks',
     'C11': 'GCounter::read sums the dots that VClock::iter yields',
-}, floor=7, inst_filter={'C20': lambda i: i in ('is_empty', 'floor', 'anchor', 'internal'), 'C11': lambda i: i in ('iter', 'get', 'floor', 'anchor', 'internal')})
+}, floor=7, inst_filter={'C20': lambda i: i in ('is_empty', 'from_iter', 'from-dot', 'floor', 'anchor', 'internal'), 'C11': lambda i: i in ('iter', 'get', 'floor', 'anchor', 'internal')})
 def vc_access(ctx):
     """VClock::get = stored counter or 0; is_empty = no entry; dot(a) = Dot{a, get(a)}; iter / into_iter yield every
     entry as Dot{actor, counter}; from_iter / From<Dot> apply every given dot to an empty clock."""
